@@ -476,7 +476,7 @@ Diag(S, sink) == IF sink = "err" THEN [S EXCEPT !.err = Append(@, [k |-> "d", no
 TraceTo(S, sink, text, hd) ==
   IF ~S.xt \/ S.var = "mute" \/ (text = "" /\ hd = "") THEN S
   ELSE LET E == ExpandPS4(S)
-           S1 == IF E.bad THEN Diag(E.S, "err") ELSE E.S
+           S1 == IF E.bad THEN Diag(E.S, sink) ELSE E.S     \* the message goes where the trace goes
        IN WriteTo(S1, sink, "x", E.t \o text \o NLC \o hd)
 
 QuotedV(S, s) == IF S.var = "unquoted" THEN s ELSE Quoted(s)
